@@ -57,7 +57,13 @@ ReadyMatchesLocalAt(x) == \A w \in Weeks(x) : (x.localr[w].st = "file" /\ x.loca
 (* C08: an uploader that was not killed gives its lock back whatever the server answered (or did not), *)
 (* so that the report is left in place "for a later run" and not for nobody                           *)
 NoLockLeftAt(x) == (x.quiet /\ x.nokill) => \A w \in Weeks(x) : ~x.lock[w]
-Bad == {<<i, "NoLockLeft">> : i \in {j \in 1..Len(Trace) : ~NoLockLeftAt(Trace[j])}} \cup
+(* C08: a report left in place is offered again by the next run ("for a later run"): with a single uploader *)
+(* and no kill, whatever is still ready when all runs are over was posted by the last run                   *)
+LeftoverRetriedAt(x) == (x.quiet /\ x.nokill /\ x.nuploaders = 1) =>
+     \A w \in Weeks(x) : x.ready[w].st = "file" =>
+         \E i \in DOMAIN x.posts : ToString(x.posts[i].w) = w /\ x.posts[i].n = x.maxruns
+Bad == {<<i, "LeftoverRetried">> : i \in {j \in 1..Len(Trace) : ~LeftoverRetriedAt(Trace[j])}} \cup
+       {<<i, "NoLockLeft">> : i \in {j \in 1..Len(Trace) : ~NoLockLeftAt(Trace[j])}} \cup
        {<<i, "ReadyMatchesLocal">> : i \in {j \in 1..Len(Trace) : ~ReadyMatchesLocalAt(Trace[j])}} \cup
        {<<i, "ReplyHandled">> : i \in {j \in 1..Len(Trace) : ~ReplyHandledAt(j)}} \cup
        {<<i, "OneBodyPerWeek">> : i \in {j \in 1..Len(Trace) : ~OneBodyPerWeekAt(Trace[j])}}
@@ -69,5 +75,5 @@ Bad == {<<i, "NoLockLeft">> : i \in {j \in 1..Len(Trace) : ~NoLockLeftAt(Trace[j
        \cup {<<i, "ReportStable">> : i \in {j \in 1..Len(Trace) : ~ReportStableAt(j)}}
 ASSUME PrintT(<<"C08BAD", Bad>>)
 AllGood == /\ OneBodyPerWeekAt(Trace[l]) /\ NoResendAt(Trace[l]) /\ MarkerOnlyAfterAckAt(Trace[l]) /\ UntouchedAt(Trace[l])
-           /\ OneLocalReportAt(Trace[l]) /\ DeleteOnlyAfterReportAt(l) /\ ReportStableAt(l) /\ ReplyHandledAt(l) /\ ReadyMatchesLocalAt(Trace[l]) /\ NoLockLeftAt(Trace[l])
+           /\ OneLocalReportAt(Trace[l]) /\ DeleteOnlyAfterReportAt(l) /\ ReportStableAt(l) /\ ReplyHandledAt(l) /\ ReadyMatchesLocalAt(Trace[l]) /\ NoLockLeftAt(Trace[l]) /\ LeftoverRetriedAt(Trace[l])
 =============================================================================
